@@ -5,11 +5,14 @@
    or a pair of positions each of which is the position just after a prefix of
    the input (a 1-based line of the text, a column within that line) with
    start <= end, and lies within the reader positions before and after the call
-   that produced it. Not proved: that spans are non-empty, that a child's span
-   lies inside its parent's and after its preceding sibling's, that the covered
-   text re-parses to the sub-datum, and that the three sources report the same
-   spans; these are decided by the correspondence (spans compared on every
-   case, three sources) and the implementation-level oracle (theorems.json). *)
+   that produced it; and the elements a list or vector hands out (the cars of
+   the chain and a dotted tail; the parts of a quotation) lie one after another,
+   without overlap, inside the span of the list or vector itself, at every
+   depth (C11_nesting_order_partial). Not proved: that spans are non-empty,
+   that the covered text re-parses to the sub-datum, and that the three sources
+   report the same spans; these are decided by the correspondence (spans
+   compared on every case, three sources) and the implementation-level oracle
+   (theorems.json). *)
 From Coq Require Import SpecFloat.
 Require Import Base Value Float PrintOptions ParseOptions Utf8 Reader Scan Num NumberOps Parser.
 Require Import RelFramework PositionProofs SpanProofs.
@@ -32,6 +35,40 @@ Theorem C11_every_call_partial : forall W ro alpha fast std_parse fuel s, inv W 
   end.
 Proof. intros W ro alpha fast std_parse fuel s Hi. exact (proj1 (datums_spans W ro alpha fast std_parse fuel) s Hi). Qed.
 Print Assumptions C11_every_call_partial.
+
+(* Nesting and sibling order. tight i, by recursion over the span tree:
+   - a vector's element spans, in order, satisfy
+       start(vector) <= start(e1) <= end(e1) <= start(e2) <= ... <= end(en) <= end(vector);
+   - the same for a list (a cons chain whose head carries the list's span): its
+     elements are the cars along the chain followed by the dotted tail, if any
+     (a tail that is itself a list contributes its own elements, as list_iter
+     does); the two parts of a quotation are the shorthand and the quoted datum;
+   - and every sub-tree is tight.
+   seqb_inside / seqb_adjacent spell the chain of inequalities out per element
+   and per pair of neighbours. *)
+Theorem C11_nesting_order_partial : forall ro alpha fast std_parse k inp d,
+  datum_from_trait ro alpha fast std_parse k inp = POk d -> tight (dinfo d).
+Proof. exact datum_from_trait_tight. Qed.
+Print Assumptions C11_nesting_order_partial.
+
+Theorem C11_children_inside_parent : forall lo hi l i, seqb lo hi l -> In i l ->
+  pos_le lo (root_start i) /\ pos_le (root_start i) (root_end i) /\ pos_le (root_end i) hi.
+Proof. exact seqb_inside. Qed.
+Theorem C11_siblings_in_order : forall lo hi l1 x y l2, seqb lo hi (l1 ++ x :: y :: l2) -> pos_le (root_end x) (root_start y).
+Proof. exact seqb_adjacent. Qed.
+
+(* on every call, not only the entry point *)
+Theorem C11_nesting_every_call_partial : forall W ro alpha fast std_parse fuel s, inv W (rd s) ->
+  match next_datum ro alpha fast std_parse fuel s with
+  | (POk (Some d), _) => tight (dinfo d)
+  | _ => True
+  end.
+Proof.
+  intros W ro alpha fast std_parse fuel s Hi.
+  pose proof (proj1 (datums_tight W ro alpha fast std_parse fuel) s Hi) as H.
+  destruct (next_datum ro alpha fast std_parse fuel s) as [[[d|]|e] s1]; try exact I. apply H.
+Qed.
+Print Assumptions C11_nesting_every_call_partial.
 
 (* the reader position never moves backwards, in any token function *)
 Theorem C11_position_monotone : forall ro alpha fast std_parse fuel b r,
